@@ -42,7 +42,7 @@ def worldOp (st : DState) (fields : List String) : DState × Outcome :=
     | some a, some e, some es =>
       let w := st.world
       let acc := w.accts a
-      let esdt' := es.foldl (fun f (t, _, amt) => upd f t amt) acc.esdt
+      let esdt' := es.foldl (fun f (t, n, amt) => upd f (esdtKey t n) amt) acc.esdt
       ({ st with world := { w with accts := upd w.accts a { egld := e, esdt := esdt' } } }, .okPlain)
     | _, _, _ => (st, .fail)
   | ["roles", a, tok, rs] =>
@@ -100,7 +100,10 @@ def worldOp (st : DState) (fields : List String) : DState × Outcome :=
     match ofHex a with
     | some a =>
       let acc := st.world.accts a
-      (st, .okNat (if tok == "EGLD" then acc.egld else acc.esdt (strBytes tok)))
+      let key := match tok.splitOn "/" with
+        | [t, n] => esdtKey (strBytes t) (n.toNat?.getD 0)
+        | _ => strBytes tok
+      (st, .okNat (if tok == "EGLD" then acc.egld else acc.esdt key))
     | none => (st, .fail)
   | _ => (st, .fail)
 
